@@ -74,7 +74,7 @@ def main(argv):
                 res["tests_tail"] = tp.stdout.strip().splitlines()[-1:] if tp.stdout else []
                 res["tests_pass"] = tp.returncode == 0
             res["checks"] = {}
-            for pid in (all_ids if all_checks else [meta["property"]] + [p for p in meta.get("also_run", []) if p != meta["property"]]):
+            for pid in (all_ids if all_checks else [meta["property"]] + ([] if "--owner-only" in argv else [p for p in meta.get("also_run", []) if p != meta["property"]])):
                 env = dict(os.environ, SEMPLER_SRC=d, VERIF_OUT=os.path.join(d, "out"))
                 t0 = time.time()
                 cp = subprocess.run([os.path.join(ROOT, "check"), pid, tier], env=env, capture_output=True, text=True)
